@@ -402,6 +402,7 @@ def model_lists(ans):
 # ---- evaluation ----------------------------------------------------------------------------------------
 
 def evaluate(ctx, graphs, ncli=2, corpus=False):
+    L.preimport()
     jobs = [(g, roots_of(g), queries_of(g)) for g in graphs]
     impl = parallel_map(in_child_job, jobs, workers=6)
     answers = ctx.lean.ask_many([model_request(*j) for j in jobs])
